@@ -43,6 +43,21 @@ func sp(name string, alphabet []string, maxLen int, prefix, suffix string) *engi
 	return &engine.StrSpace{Name: name, Alphabet: alphabet, MaxLen: maxLen, Prefix: prefix, Suffix: suffix}
 }
 
+// development aid: C07_SUB=<name,name> keeps only the string spaces / declaration plans of these
+// names (never set by the registered commands).
+func subWanted(name string) bool {
+	sub := os.Getenv("C07_SUB")
+	if sub == "" {
+		return true
+	}
+	for _, n := range strings.Split(sub, ",") {
+		if n == name {
+			return true
+		}
+	}
+	return false
+}
+
 func pick(tier string, q, t int) int {
 	if tier == "thorough" {
 		return t
@@ -68,12 +83,16 @@ func (c *check) Init(tier string, seed int64) engine.Space {
 	css.add(sp("blocks", split("()[]{}a;"), T(5, 7), "", ""), 8192, execCSS)
 	css.add(sp("declarations", append(split("a:;!{} "), "important"), T(5, 7), "", ""), 8192, execCSS)
 	css.add(sp("atcdo", split("@a;{}<!->"), T(5, 7), "", ""), 8192, execCSS)
+	// the value of a declaration: parseDeclaration classifies comment / white space / `!` / `important` / other tokens
+	// and keeps an index into the value, where `!important` is cut off
+	css.add(sp("declaration-value", []string{"/**/", " ", "b", "!", "important", ";", "{}"}, T(5, 6), "a:", ""), 8192, execCSS)
 	c.fams = append(c.fams, css)
 
 	// 2. the same strings where each at-rule parser of tree.NewCSSDefault reads them
 	sheets := &strFam{nm: "stylesheets"}
 	sheets.add(sp("full", sigma0, T(3, 4), "", ""), 2048, execSheets)
 	sheets.add(sp("blocks+decl", append(split("a:;{}@( ,"), "!important"), T(4, 5), "", ""), 2048, execSheets)
+	sheets.add(sp("declaration-value", []string{"/**/", " ", "c", "!important", "!", ";"}, T(4, 5), "b:", ""), 2048, execSheets)
 	// @page selectors
 	pageAlpha := append(split("a:, )n1+-"), "first", "left", "right", "blank", "nth(", "of", "2n", "even", "FIRST", "/**/")
 	sheets.add(sp("@page-selector", pageAlpha, T(4, 5), "@page ", "{margin:0}"), 16384, execOneSheet)
@@ -167,7 +186,7 @@ func (c *check) Init(tier string, seed int64) engine.Space {
 		"inputs longer than the stated bounds are not explored; symbols outside an alphabet are assumed to behave like the representative of their class",
 		"external resources are never fetched: stylesheets, images and <use> targets other than data: URLs are answered with an error by a harness-owned fetcher",
 		"\"never loops forever\" is decided up to a CPU budget of 10 s per call (normal cost: microseconds)",
-		"fonts, layout and drawing are not executed (C01 covers them); only parsing, validation, cascade of presentational hints and box building; the one exception is the svg-references family, which draws the parsed image (no text) on the recording backend, because clip-path, mask, marker and paint references are only followed when drawing",
+		"fonts, layout and drawing are not executed (C01 covers them); only parsing, validation, cascade (presentational hints; substitution and re-validation of var() when the computed values are requested) and box building; the one exception is the svg-references family, which draws the parsed image (no text) on the recording backend, because clip-path, mask, marker and paint references are only followed when drawing",
 		"a goroutine stack above the engine's limit of 64 MB is reported as unbounded recursion (Go's default limit is 1 GB); the deepest legitimate recursion of the enumerated inputs (nested blocks, reference chains of 3 definitions, box trees of a dozen levels) stays below 100 frames",
 	}
 	if decl.kwErr != "" {
@@ -175,7 +194,7 @@ func (c *check) Init(tier string, seed int64) engine.Space {
 	}
 	return engine.Space{
 		Units: c.total, Chunk: 1, Level: "model_checking",
-		Rule:        "per entry point: every string of the prefix tree over that parser's alphabet up to the stated length (index-addressable, shortest first); for validators and descriptors: every name x every token sequence of the stated plans; for HTML attributes: every 0/1/2-deviation document; for W3C dates: every valid form with 1..2 (thorough 3) segments replaced; for SVG references: every functional graph on 1..3 definitions over the kind and reference menus. One state = one guarded call of one entry point on one input; a case is non-trivial when the input is accepted (the parser returns a value rather than its error/ignored result)",
+		Rule:        "per entry point: every string of the prefix tree over that parser's alphabet up to the stated length (index-addressable, shortest first); for validators and descriptors: every name x every token sequence of the stated plans (the declarations of the var() and !important plans are also placed in a fixed document at every place a declaration is read from, and every computed value is requested); for HTML attributes: every 0/1/2-deviation document; for W3C dates: every valid form with 1..2 (thorough 3) segments replaced; for SVG references: every functional graph on 1..3 definitions over the kind and reference menus. One state = one guarded call of one entry point on one input; a case is non-trivial when the input is accepted (the parser returns a value rather than its error/ignored result)",
 		Bounds:      bounds,
 		Assumptions: assumptions,
 		BudgetS:     float64(pick(tier, 110, 1500)),
